@@ -357,8 +357,14 @@ def explore(tier, seed):
             if f and k not in seen:
                 seen.add(k)
                 fails.append(f)
+    for pred in range(16):
+        cases += 1
+        f = check_select_cmpf(pred)
+        if f and "C14/select-cmpf" not in seen:
+            seen.add("C14/select-cmpf")
+            fails.append(dict(f, key="C14/select-cmpf", inputs={}))
     return {"cases": cases, "failures": fails, "exhaustive": False,
-            "bound": f"directed families (every int/float binary op and cmpi predicate on every ordered pair of boundary constants per type; every int binary op with one boundary constant and one function argument in both operand orders, and x op x) + {n} seeded single-block programs (<= 6 arith ops of 20 integer kinds, cmpi, select, 4 float kinds; types i1/i8/i32/i64/index/f32/f64; boundary "
+            "bound": f"select-over-cmpf for all 16 predicates x 4 subsets of (nnan, nsz) x 64 operand pairs incl. NaN/inf/signed zeros; directed families (every int/float binary op and cmpi predicate on every ordered pair of boundary constants per type; every int binary op with one boundary constant and one function argument in both operand orders, and x op x) + {n} seeded single-block programs (<= 6 arith ops of 20 integer kinds, cmpi, select, 4 float kinds; types i1/i8/i32/i64/index/f32/f64; boundary "
                      f"constants) x pipelines {PASSES}; evaluated before/after on 12 boundary input vectors with an independent reference evaluator"}
 
 
@@ -547,6 +553,86 @@ def check_select_pattern(pattern, w, same_arms, m):
         if got != exp:
             return {"pattern": pattern, "width": w, "cond": c_, "lhs": x, "rhs": y, "constant operands": consts, "same arms": same_arms,
                     "value after the rewrite": got, "value before": exp}
+    return None
+
+
+FLOAT_PROBES = [0.0, -0.0, 1.0, -1.0, 2.5, float("inf"), float("-inf"), float("nan")]
+
+
+def _ref_cmpf(p, x, y):
+    import math
+
+    un = math.isnan(x) or math.isnan(y)
+    base = {1: x == y, 2: x > y, 3: x >= y, 4: x < y, 5: x <= y, 6: x != y}
+    if p == 0:
+        return False
+    if p == 15:
+        return True
+    if p == 7:
+        return not un
+    if p == 14:
+        return un
+    if 1 <= p <= 6:
+        return (not un) and base[p]
+    return un or base[p - 7]
+
+
+def _ref_minmax(kind, x, y):
+    import math
+
+    if math.isnan(x) or math.isnan(y):
+        return float("nan")
+    if x == 0.0 and y == 0.0:
+        neg = math.copysign(1, x) < 0, math.copysign(1, y) < 0
+        if kind == "max":
+            return -0.0 if all(neg) else 0.0
+        return -0.0 if any(neg) else 0.0
+    return max(x, y) if kind == "max" else min(x, y)
+
+
+@rechecked
+def check_select_cmpf(pred, a=None, b=None, nnan=None, nsz=None):
+    """
+    `select (cmpf pred, a, b), a, b` with every subset of {nnan, nsz} (or the given one) run through canonicalize; the result is evaluated by a reference
+    evaluator on probe operands (or the given pair).  A NaN operand is excluded under nnan; zero results are compared up to sign under nsz.
+    """
+    import math
+
+    from xdsl.context import Context
+    from xdsl.dialects import arith, func
+    from xdsl.dialects.builtin import Builtin, ModuleOp, f64
+    from xdsl.ir import Block, Region
+    from xdsl.transforms.canonicalize import CanonicalizePass
+
+    subsets = [(bool(nnan), bool(nsz))] if nnan is not None else [(False, False), (True, False), (False, True), (True, True)]
+    probes = [(a, b)] if a is not None else [(x, y) for x in FLOAT_PROBES for y in FLOAT_PROBES]
+    for fn, fz in subsets:
+        flags = [f for f, on in ((arith.FastMathFlag.NO_NANS, fn), (arith.FastMathFlag.NO_SIGNED_ZEROS, fz)) if on]
+        blk = Block(arg_types=[f64, f64])
+        cmp = arith.CmpfOp(blk.args[0], blk.args[1], pred, arith.FastMathFlagsAttr(flags))
+        sel = arith.SelectOp(cmp.result, blk.args[0], blk.args[1])
+        blk.add_ops([cmp, sel, func.ReturnOp(sel.result)])
+        module = ModuleOp([func.FuncOp("f", ((f64, f64), (f64,)), Region(blk))])
+        ctx = Context()
+        ctx.load_dialect(Builtin)
+        ctx.load_dialect(arith.Arith)
+        ctx.load_dialect(func.Func)
+        CanonicalizePass().apply(ctx, module)
+        ret = blk.last_op.operands[0]
+        kind = {"arith.maximumf": "max", "arith.minimumf": "min"}.get(ret.owner.name if hasattr(ret.owner, "name") else "", None)
+        for x, y in probes:
+            if fn and (math.isnan(x) or math.isnan(y)):
+                continue  # poison under nnan
+            before = x if _ref_cmpf(pred, x, y) else y
+            if kind is None:
+                if ret.owner.name != "arith.select":
+                    return {"predicate": pred, "flags": [str(f) for f in flags], "why": f"unexpected rewrite to {ret.owner.name}"}
+                continue
+            after = _ref_minmax(kind, x, y)
+            same = (math.isnan(before) and math.isnan(after)) or (before == after and (math.copysign(1, before) == math.copysign(1, after) or (fz and before == 0.0)))
+            if not same:
+                return {"predicate": pred, "flags": [f.value for f in flags], "operands": (x, y), "select returned": before, f"arith.{kind}imumf returns": after,
+                        "program after canonicalize": str(module)}
     return None
 
 
